@@ -890,6 +890,7 @@ pub fn boot_matrix_cfgs() -> Vec<RunCfg> {
                             rng_seed: rng.next_u64(),
                             deny,
                             evil_static_pub: false,
+                            build_order: (out.len() % 128) as u8,
                         };
                         out.push(RunCfg {
                             scenario: "boot-matrix".into(),
@@ -919,6 +920,7 @@ pub fn boot_matrix_cfgs() -> Vec<RunCfg> {
                 rng_seed: 1,
                 deny: None,
                 evil_static_pub: false,
+                build_order: 0,
             }],
             rng_mode: RngMode::Stream,
             record: false,
